@@ -135,7 +135,7 @@ def generate(rng, tier):
     add = cases.append
 
     # (1) q*b + r backwards, all divisor lengths, several quotient lengths, every unsigned API
-    reps = 10 if T else 1
+    reps = 30 if T else 1
     for _ in range(reps):
         for n in DIV_LENS:
             for qlen in [0, 1, 2, 3, 7]:
@@ -162,7 +162,7 @@ def generate(rng, tier):
                       val(rand_digits(rng, n)), val(rand_digits(rng, n + 1)), 0, 1):
                 add("%s %s %s" % (rng.choice(["u.div_rem", "u.div_rem", "h.div_rem", "u.div_mod_floor"]), U(a), U(b)))
     # (4) rare branches of Knuth D, by construction (both through the API and at hook level)
-    nrare = 60 if T else 12
+    nrare = 200 if T else 12
     for fam in (rare_eq, rare_dec1, rare_dec2, rare_addback):
         for i in range(nrare):
             n = rng.choice([2, 3, 3, 5, 17])
@@ -177,7 +177,7 @@ def generate(rng, tier):
     for op in I_OPS:
         for sa in (1, -1):
             for sb in (1, -1):
-                for _ in range(6 if T else 2):
+                for _ in range(12 if T else 2):
                     n = rng.choice(DIV_LENS)
                     b = divisor(rng, n)
                     a = backwards(rng, b, rng.choice([0, 1, 2, 3]))
@@ -195,7 +195,7 @@ def generate(rng, tier):
         for a in (0, 5, -5, rand_signed(rng, [2, 3])):
             add("%s %s %s" % (op, I(a), I(0)))
     # (7) scalar forms
-    for _ in range(400 if T else 60):
+    for _ in range(1500 if T else 60):
         ty = rng.choice(["u32", "u64", "u128"])
         bits = {"u32": 32, "u64": 64, "u128": 128}[ty]
         s = rng.choice([0, 1, 2, 3, (1 << bits) - 1, 1 << (bits - 1), rng.getrandbits(bits), rng.getrandbits(bits // 2),
@@ -207,7 +207,7 @@ def generate(rng, tier):
         add("u.scalar_div %s %s" % (S(ty, s), U(small)))
         add("u.scalar_rem %s %s" % (S(ty, s), U(small)))
     # (8) hook level
-    for _ in range(300 if T else 40):
+    for _ in range(1000 if T else 40):
         d = rng.choice([1, 2, 3, MAXD, HALF, HALF + 1, rng.getrandbits(64) | 1, rng.getrandbits(32) | 1])
         hi = rng.choice([0, d - 1, rng.randrange(d)])
         lo = rng.choice([0, MAXD, rng.getrandbits(64)])
